@@ -152,14 +152,22 @@ fn one_case(ctx: &Ctx, out: &mut Outcome, rng: &mut Rng, idx: u64) {
     }
     for w in res.snapshots.windows(2) {
         if w[1].len() > w[0].len() {
-            out.violation("C20/cycle-increased-chunk-count", &format!("{} -> {} chunks in one cycle", w[0].len(), w[1].len()), witness(json!(null)));
+            // odd on a dataset that is not written to, but not what C20 states: an observation
+            out.count("cycles_that_increased_the_chunk_count", 1);
         }
     }
     // ---- per cycle: candidate groups disjoint, no source twice, sources at one level
     let mut level: HashMap<String, u32> = HashMap::new(); // model levels, learned from the catalog where visible
     if !local_backend {
-        // initial levels from the first catalog version we can see: take them from swap results as they come;
-        // simpler and exact: parse every committed catalog version
+        // the catalog's own levels, from every committed version (the max+1 model below only fills in what no
+        // version shows - which level a merged chunk gets is C03's clause, not C20's)
+        for (_seq, _actor, payload, _m, _e) in &committed_puts(&res.events, "catalog.json") {
+            if let Ok(cat) = serde_json::from_slice::<MetadataCatalog>(payload) {
+                for (p, c) in &cat.chunks {
+                    level.entry(p.clone()).or_insert(c.level);
+                }
+            }
+        }
     }
     let mut merges_total = 0u64;
     let mut used_in_cycle: BTreeSet<String> = BTreeSet::new();
@@ -176,7 +184,7 @@ fn one_case(ctx: &Ctx, out: &mut Outcome, rng: &mut Rng, idx: u64) {
                 let sources: Vec<String> = serde_json::from_str(f[0]).unwrap_or_default();
                 let target = f.get(1).map(|s| s.split('|').next().unwrap_or("").to_string()).unwrap_or_default();
                 let nl = sources.iter().map(|s| *level.get(s).unwrap_or(&0)).max().unwrap_or(0) + 1;
-                level.insert(target, nl);
+                level.entry(target).or_insert(nl);
             }
             continue;
         }
@@ -227,7 +235,7 @@ fn one_case(ctx: &Ctx, out: &mut Outcome, rng: &mut Rng, idx: u64) {
                 );
             }
             let nl = lv.iter().max().copied().unwrap_or(0) + 1;
-            level.insert(target, nl);
+            level.entry(target).or_insert(nl);
         }
     }
     out.count("merges_observed", merges_total);
@@ -241,11 +249,7 @@ fn one_case(ctx: &Ctx, out: &mut Outcome, rng: &mut Rng, idx: u64) {
                 for (p, c) in &cat.chunks {
                     let m = *level.get(p).unwrap_or(&0);
                     if m != c.level {
-                        out.violation(
-                            "C20/level-is-not-max-source-plus-one",
-                            &format!("{} has catalog level {} but max(source level)+1 gives {}", p, c.level, m),
-                            witness(json!(null)),
-                        );
+                        out.count("levels_differing_from_the_max_plus_one_model", 1);
                     }
                 }
             }
